@@ -1,6 +1,7 @@
 import AmrK.PestleMask
 import AmrK.PestleIntegral
 import AmrK.Hyps
+import AmrK.PestleVFProofs
 /-! # C09 — pestle integrates every point of the domain exactly once -/
 namespace C09
 open Pestle
@@ -58,6 +59,45 @@ example :
     let lv0 : Level := ⟨[12, 6, 6], [1, 1, 1], [⟨[0,0,0],[5,5,5], List.replicate 216 1⟩, ⟨[6,0,0],[11,5,5], List.replicate 216 1⟩]⟩
     let lv1 : Level := ⟨[24, 12, 12], [1/2, 1/2, 1/2], [⟨[4,0,0],[9,5,5], List.replicate 216 1⟩]⟩
     integral false [lv0, lv1] ≠ some (integralSpec [lv0, lv1]) ∧ integral true [lv0, lv1] = some (integralSpec [lv0, lv1]) := by
+  decide +kernel
+
+/-- **the call as made** (`x volume fraction when requested`, `any level limit, which restricts the
+    integral to levels 0..limit`): for a field of the plotfile, with all components of every box, the
+    volume-fraction flag and the limit as arguments, the result is the sum over the cells of levels
+    `0 … limit` not covered by the next selected level of value × cell volume × (the volume fraction of
+    that very cell, when requested and the plotfile holds `volFrac`) -/
+theorem as_called (names : List String) (field : String) (useVF : Bool) (limit : Option Nat)
+    (lvls : List MLevel) (i : Nat) (hi : names.idxOf? field = some i)
+    (hal : alignedAllB (boxRez true (selected names field useVF limit lvls)) (selected names field useVF limit lvls) = true) :
+    volumeIntegral names field useVF limit lvls = some (integralSpec (selected names field useVF limit lvls)) :=
+  volumeIntegral_spec names field useVF limit lvls i hi hal
+
+/-- the limit keeps levels `0 … limit`; a limit at or above the finest level keeps them all -/
+theorem limit_levels (names : List String) (field : String) (useVF : Bool) (limit : Option Nat) (lvls : List MLevel) :
+    (selected names field useVF limit lvls).length =
+      match limit with
+      | some l => min (l + 1) lvls.length
+      | none => lvls.length :=
+  selected_length names field useVF limit lvls
+
+theorem unknown_field_is_an_error (names : List String) (field : String) (useVF : Bool) (limit : Option Nat)
+    (lvls : List MLevel) (h : field ∉ names) : volumeIntegral names field useVF limit lvls = none :=
+  volumeIntegral_unknown names field useVF limit lvls h
+
+/-- the workers' weighted sums are the plain sums of the products (the step the weighting rests on) -/
+theorem weighted_sum (data vf : List Rat) (m : List Bool) : sumMasked2 data vf m = sumMasked (mul data vf) m :=
+  sumMasked2_eq data vf m
+
+/-- non-vacuity: two coarse boxes (one un-refined, with cut cells), one fine box over the other,
+    volume fractions different from 1, with and without the flag and with a limit -/
+example :
+    let c := fun (v : Rat) => List.replicate 8 v
+    let lv0 : MLevel := ⟨[4, 2, 2], [1, 1, 1], [⟨[0,0,0],[1,1,1],[c 2, c (1/2)]⟩, ⟨[2,0,0],[3,1,1],[c 3, c (1/4)]⟩]⟩
+    let lv1 : MLevel := ⟨[8, 4, 4], [1/2, 1/2, 1/2], [⟨[0,0,0],[3,3,3],[List.replicate 64 5, List.replicate 64 1]⟩]⟩
+    volumeIntegral ["density", "volFrac"] "density" true none [lv0, lv1] = some (8 * 3 * (1/4) + 64 * 5 * (1/8)) ∧
+    volumeIntegral ["density", "volFrac"] "density" false none [lv0, lv1] = some (8 * 3 + 64 * 5 * (1/8)) ∧
+    volumeIntegral ["density", "volFrac"] "density" true (some 0) [lv0, lv1] = some (8 * 2 * (1/2) + 8 * 3 * (1/4)) ∧
+    volumeIntegral ["density", "other"] "density" true none [lv0, lv1] = some (8 * 3 + 64 * 5 * (1/8)) := by
   decide +kernel
 
 end C09
